@@ -389,6 +389,13 @@ def _do_rewrite(source: str, rewrite: _Rewrite, *, fix_function_name: str = "") 
                     indent = len(last_line) - len(last_line.rstrip())
                     new_code += " " * indent
 
+                if old.start == old.end == len(source):
+                    # Insertion after the last line of the file: there is no line to take the
+                    # indentation from, and the last line may lack a line break.
+                    new_code = " " * getattr(new, "col_offset", 0) + new_code
+                    if before and not before.endswith("\n"):
+                        new_code = "\n" + new_code
+
     else:
         raise TypeError(f"Invalid replacement type: {type(new)}")
 
